@@ -151,7 +151,7 @@ def run(ctx):
     # every TLC job of steps 1 and 2 is an independent JVM: they run side by side (quick: 2 workers each), and the
     # Go test binary is built meanwhile
     from concurrent.futures import ThreadPoolExecutor
-    pool = ThreadPoolExecutor(max_workers=6 if not thorough else 4)
+    pool = ThreadPoolExecutor(max_workers=8 if not thorough else 4)
     warm = pool.submit(lambda: ctx.go_test(V.PKG, V.HARNESS, "^TestVerifC20NoSuchTest$", timeout=1800))
 
     def mc_job(label, p, inv):
@@ -173,7 +173,10 @@ def run(ctx):
     cand_fut = pool.submit(cand_job)
 
     # ---- 2. G: generate behaviours ------------------------------------------------------------------
-    bfs = [dict(clients=2, nconns=1, sys=[TZ], user=[], cs=["d", "a"], vals=["a"], fails=["reject"], maxfails=1, len=4, need=2)]
+    # second entry: every sequence of up to two SET statements of one client (all SET NAMES forms, SET var, SET var = DEFAULT)
+    # followed by its statements - the settings a session requests as a function of the SET statements it was sent
+    bfs = [dict(clients=2, nconns=1, sys=[TZ], user=[], cs=["d", "a"], vals=["a"], fails=["reject"], maxfails=1, len=4, need=2),
+           dict(clients=1, nconns=1, sys=[TZ], user=[], cs=["d", "a", "b"], vals=["a"], fails=[], sets=2, len=4, need=1)]
     sims = [
         (dict(clients=2, nconns=2, sys=[TZ, SSL], user=["@u"], cs=["d", "a", "b"], usernull=True, fails=["reject"], maxfails=2, tx=True,
               sets=6, len=14, need=2), 200),
@@ -182,7 +185,8 @@ def run(ctx):
     ]
     if thorough:
         bfs = [dict(clients=2, nconns=1, sys=[TZ], user=["@u"], cs=["d", "a"], vals=["a"], fails=["reject"], maxfails=1, len=5, need=2),
-               dict(clients=2, nconns=2, sys=[TZ], user=[], cs=["d", "a"], vals=["a"], fails=["reject"], maxfails=1, tx=True, len=5, need=2)]
+               dict(clients=2, nconns=2, sys=[TZ], user=[], cs=["d", "a"], vals=["a"], fails=["reject"], maxfails=1, tx=True, len=5, need=2),
+               dict(clients=1, nconns=1, sys=[TZ], user=["@u"], cs=["d", "a", "b", "c"], usernull=True, fails=[], sets=3, len=5, need=1)]
         sims = [
             (dict(clients=2, nconns=2, sys=[TZ, SSL], user=["@u"], cs=["d", "a", "b"], usernull=True, fails=["reject"], maxfails=2, tx=True,
                   sets=6, len=14, need=2), 1000),
@@ -272,7 +276,7 @@ def run(ctx):
                        "requested settings, or that refused a SET earlier")
     for c in cases[nknown:]:
         if V.nontrivial(c) and V.has_refusal(c):
-            ctx.sample({"nconns": c["nconns"], "events": [{k: v for k, v in e.items() if k in ("ev", "c", "name", "val", "fail", "txfail", "conn", "outcome", "want")}
+            ctx.sample({"nconns": c["nconns"], "events": [{k: v for k, v in e.items() if k in ("ev", "c", "name", "val", "form", "fail", "txfail", "conn", "outcome", "want")}
                                                             for e in c["events"]]}, limit=4)
             if len(ctx.cov["samples"]) >= 4:
                 break
